@@ -9,7 +9,7 @@ import (
 )
 
 func init() {
-	registerRule("lookup-table", 45, "every JSONLookup consults extensions and every tag-driven component the encoder emits, falls through on not-found, and answers computed member names", ruleLookupTable)
+	registerRule("lookup-table", 60, "every JSONLookup consults extensions and every tag-driven component the encoder emits, falls through on not-found, and answers computed member names", ruleLookupTable)
 }
 
 // listedLookupKinds are the object kinds C15 names; each must have a JSONLookup.
